@@ -6,7 +6,7 @@
 (* segment of the lattice is printed for the Go replayer, and the L2       *)
 (* transcription is checked against L1 (theorem T1) in the same pass.      *)
 (***************************************************************************)
-EXTENDS KernelImpl, TLC
+EXTENDS KernelImpl, BigKernel, TLC
 CONSTANTS N
 VARIABLES a, b
 vars == <<a, b>>
@@ -30,6 +30,14 @@ T1 == Done =>
    /\ \A i \in 1..NP : \A j \in 1..NP :
          /\ SegIntersectsL2(a,b,Pt(i),Pt(j)) = SegInter(a,b,Pt(i),Pt(j))
          /\ ContainsSegmentL2(a,b,Pt(i),Pt(j)) = SegContains(a,b,Pt(i),Pt(j))
+\* T1big: the limb-arithmetic kernels agree with the plain ones (also after scaling by 2^12 = 4096, which
+\* exercises the carries: differences up to 2^14 * ... stay below the plain kernels' overflow only for N <= 4)
+T1big == Done => \A i \in 1..NP : \A j \in 1..NP :
+         LET S(p) == <<4096 * p[1] + 1, 4096 * p[2] - 3>> IN
+         /\ SegInterB(a,b,Pt(i),Pt(j)) = SegInter(a,b,Pt(i),Pt(j))
+         /\ SegInterB(S(a),S(b),S(Pt(i)),S(Pt(j))) = SegInter(a,b,Pt(i),Pt(j))
+         /\ RaycastSemB(S(a),S(b),S(Pt(i))) = RaycastSem(a,b,Pt(i))
+         /\ SegContainsB(S(a),S(b),S(Pt(i)),S(Pt(j))) = SegContains(a,b,Pt(i),Pt(j))
 \* L1 sanity: intersection is symmetric, containment implies intersection
 T1sym == Done => \A i \in 1..NP : \A j \in 1..NP :
          /\ SegInter(a,b,Pt(i),Pt(j)) = SegInter(Pt(i),Pt(j),a,b)
